@@ -116,6 +116,29 @@ pub fn cases(prop: &str, tier: Tier, seed: u64) -> Vec<CaseDesc> {
             }
             out.extend(with_scenario(base, "cfg"));
         }
+        "C10" => {
+            // cfg 27 = defaults + generate_dwarf (implies the code-transform map)
+            let mut bases: Vec<String> = crate::census::leb_specs(!q);
+            bases.extend(g("tiny", if q { 40 } else { 2000 }, 0).into_iter().take(if q { 40 } else { 2000 }));
+            bases.extend(g("full", if q { 30 } else { 2000 }, 0).into_iter().take(if q { 30 } else { 2000 }));
+            let mut i = 0usize;
+            for b in &bases {
+                for (ver, mode) in [(4, "f"), (5, "f"), (4, "s"), (5, "s"), (5, "z")] {
+                    let spec = format!("dwarf:{}:{}:{}", ver, mode, b);
+                    let scn = match i % 3 { 0 => "rt:emit;cfg=27", 1 => "rt:emit,gc;cfg=27", _ => "rt:emit,ins;cfg=27" };
+                    i += 1;
+                    out.push(CaseDesc { spec: spec.clone(), scenario: scn.to_string() });
+                    if b.starts_with("leb:") {
+                        // census: every scenario on every boundary module
+                        for s in ["rt:emit;cfg=27", "rt:emit,gc;cfg=27", "rt:emit,ins;cfg=27"] {
+                            if s != scn {
+                                out.push(CaseDesc { spec: spec.clone(), scenario: s.to_string() });
+                            }
+                        }
+                    }
+                }
+            }
+        }
         "C11" => {
             // cfg 90 = defaults + preserve_code_transform
             out.extend(with_scenario(disk_corpus(false), "rt:emit,gc,probe;cfg=90"));
